@@ -1,0 +1,36 @@
+//go:build verif
+
+// Contracts for package asr, checked by /verif (govc). Comments only;
+// compiled only with -tags verif; adds no code.
+
+package asr
+
+// ---------------------------------------------------------------------------
+// Sequence parsimony, up-pass (properties C12, C18)
+// ---------------------------------------------------------------------------
+
+//@ func asr.parsimonyUPPASS
+//@   flag noframe
+//@   requires cur != nil
+//@   requires forall i int :: {cur.neigh[i]} 0 <= i && i < len(cur.neigh) ==> cur.neigh[i] != nil
+//@   call asr.parsimonyUPPASS [recursion_goes_to_the_children_only] a0 == child && a0 != prev && a1 == cur && a3 == seqs && a4 == nsteps
+//@   loop 2
+//@     invariant [expansion_is_every_state_but_gap_and_other_whatever_the_iteration_order] forall x uint8 :: (exists k int :: {possibilities[k]} 0 <= k && k < len(possibilities) && possibilities[k] == x) <==> (visited(1, x) && x != 45 && x != 42)
+//@   loop 9
+//@     step [one_step_per_child_lacking_the_kept_state] next(nsteps[j]) == atHead(nsteps[j]) + (child != prev && seqs[child.id].seq[j].counts[maxState] == 0.0 ? 1 : 0)
+
+//@ func asr.computeParsimony
+//@   requires len(currentStates.counts) >= len(neighborStates.counts)
+//@   requires neighborStates.counts == currentStates.counts || arr(neighborStates.counts) != arr(currentStates.counts)
+//@   requires forall k int :: {neighborStates.counts[k]} 0 <= k && k < len(neighborStates.counts) ==> neighborStates.counts[k] >= 0.0
+//@   assigns elems(currentStates.counts)
+//@   ensures [indicator_of_the_maxima] forall k int :: {currentStates.counts[k]} 0 <= k && k < len(neighborStates.counts) ==> (currentStates.counts[k] == 1.0 || currentStates.counts[k] == 0.0) && (currentStates.counts[k] == 1.0 <==> (forall j int :: {old(neighborStates.counts[j])} 0 <= j && j < len(neighborStates.counts) ==> old(neighborStates.counts[j]) <= old(neighborStates.counts[k])))
+//@   loop 1
+//@     invariant [running_max_bounds_scanned_prefix] max >= 0.0 && (forall j int :: {neighborStates.counts[j]} 0 <= j && j <= rangeindex ==> neighborStates.counts[j] <= max)
+//@     invariant [running_max_is_attained_or_zero] max == 0.0 || (exists j int :: {neighborStates.counts[j]} 0 <= j && j <= rangeindex && neighborStates.counts[j] == max)
+//@   loop 2
+//@     assigns elems(currentStates.counts)
+//@     invariant [max_bounds_all] forall j int :: {old(neighborStates.counts[j])} 0 <= j && j < len(neighborStates.counts) ==> old(neighborStates.counts[j]) <= max
+//@     invariant [max_attained_or_zero] max == 0.0 || (exists j int :: {old(neighborStates.counts[j])} 0 <= j && j < len(neighborStates.counts) && old(neighborStates.counts[j]) == max)
+//@     invariant [unread_part_untouched] forall j int :: {neighborStates.counts[j]} rangeindex < j && j < len(neighborStates.counts) ==> neighborStates.counts[j] == old(neighborStates.counts[j])
+//@     invariant [done_prefix] forall k int :: {currentStates.counts[k]} 0 <= k && k <= rangeindex ==> (currentStates.counts[k] == 1.0 || currentStates.counts[k] == 0.0) && (currentStates.counts[k] == 1.0 <==> old(neighborStates.counts[k]) == max)
